@@ -404,8 +404,75 @@ def _item(e, rng):
     return it
 
 
+def longrun_plan(rng, n_devices, every, forgers):
+    """One long run in ONE process: n_devices distinct devices (each a chain root <- device <- attestation
+    <- ui with its own device and attestation keys, i.e. 2 * n_devices certifier keys), introduced in
+    order; after device t, earlier certificates are validated AGAIN (fresh object, same file) at the
+    distances of harness/longrun.py, and so is a FORGERY of that early certificate: its attestation
+    element re-signed, tweak and all, with the device key of a later device (`forgers`: which ones)."""
+    return {"longrun": {"n": n_devices, "every": every, "forgers": list(forgers)}, "seed": rng.randrange(1 << 62),
+            "src": "long-run", "targets": ["ui", "attestation", "device"], "elements": LONGRUN_ELEMENTS, "corrs": []}
+
+
+LONGRUN_ELEMENTS = [{"name": "device", "signed_by": "root", "tweak": False, "compressed": False, "leafmsg": 0},
+                    {"name": "attestation", "signed_by": "device", "tweak": True, "compressed": False, "leafmsg": 0},
+                    {"name": "ui", "signed_by": "attestation", "tweak": True, "compressed": True, "leafmsg": 0}]
+
+
+def execute_longrun(job):
+    import copy
+    from .longrun import revisit_schedule
+    plan, scratch = job
+    lr = plan["longrun"]
+    rng = random.Random(plan["seed"])
+    path = os.path.join(scratch, "c06_%d_lr.json" % os.getpid())
+    chains = {}
+    seen, traces = set(), []
+
+    def observe(ch, step):
+        ch.dump(path)
+        t = trace_of(ch, run_real(path, ch.root_hex))
+        t["step"] = step
+        key = json.dumps([t["els"], t["res"], t["outcome"], t["rootkey"]], sort_keys=True)
+        if key not in seen:          # (an observation identical to an earlier one is the same trace)
+            seen.add(key)
+            traces.append(t)
+        return t
+    count = {"new": 0, "again": 0, "forged": 0}
+    for ev in revisit_schedule(lr["n"], every=lr["every"]):
+        if ev[0] == "new":
+            i = ev[1]
+            els = [{"name": e["name"], "signed_by": e["signed_by"], "compressed": e["compressed"],
+                    **({"tweak": "random"} if e["tweak"] else {})} for e in LONGRUN_ELEMENTS]
+            chains[i] = certv1.build({"targets": plan["targets"], "elements": els}, rng)
+            observe(chains[i], "device %d: first validation" % i)
+            count["new"] += 1
+        else:
+            _, j, d = ev
+            t_now = j + d
+            observe(chains[j], "device %d again, %d devices later" % (j, d))
+            count["again"] += 1
+            for f in lr["forgers"]:
+                k = {"latest": t_now, "previous": t_now - 1, "next": j + 1}[f]
+                if k == j or k not in chains:
+                    continue
+                forged = copy.deepcopy(chains[j])
+                forged.add_key("device_of_%d" % k, chains[k].keys["device"])
+                forged.corrupt("sig_other_key", 1, rng, key_id="device_of_%d" % k)
+                observe(forged, "device %d forged with the device key of %d, %d devices later" % (j, k, d))
+                count["forged"] += 1
+    if not traces:
+        raise RuntimeError("empty long run")
+    first = traces[0]
+    first["more"] = traces[1:]
+    first["longrun_counts"] = count
+    return first
+
+
 def execute_any(job):
     plan = job[0]
+    if "longrun" in plan:
+        return execute_longrun(job)
     return execute_history(job) if ("ops" in plan or "pair" in plan or plan.get("origin")) else execute(job)
 
 
@@ -613,5 +680,5 @@ def trace_of(ch, obs):
     return {"rootkey": ch.root_sym, "targets": list(ch.cert["targets"]), "els": els, "spell": ch.spell,
             "outcome": obs["outcome"], "res": [{k: r[k] for k in ("target", "valid", "name", "value")}
                                                for r in obs["res"]],
-            "err": obs["err"], "skipped": ch.skipped,
+            "err": obs["err"], "skipped": getattr(ch, "skipped", []),
             "tweak_drift": sum(1 for r in obs["res"] if r["valid"] and r["tweak"] != tw.get(r["target"], ""))}
